@@ -239,7 +239,9 @@ def run_scenarios(seed, start, count, clauses):
                     # the solver tolerance, because k*(t/k) != t in floating point moves the step sequence across the jumps
                     if not np.isfinite(d) or d > (1e-6 if sc["L_kind"] != "staged" else 5e-3):
                         msgs.append(f"rate scaling k={k:g}: textures/F differ by {d:.3e}")
-            if "C04" in clauses:
+            if "C04" in clauses and sc["L_kind"] != "staged":
+                # (staged histories contain a rigid-rotation stage: in a rotated frame its strain rate is rounding noise instead of
+                #  exactly zero and the normalisation by the maximum strain rate is ill-conditioned -- see DESIGN, C04 limitations)
                 Q = rot(np.random.default_rng([sc["seed"], sc["idx"], 11]))
                 m3 = pydrex.Mineral(phase=m.phase, fabric=m.fabric, regime=m.regime, n_grains=n, fractions_init=b["f"].copy(), orientations_init=b["O"] @ Q.T)
                 gL, gp = b["get_L"], b["get_pos"]
